@@ -518,6 +518,21 @@ def update (s : State) (data : List Nat) : State :=
   let st := (Tlsh.windows s.cfg.window data).foldl Tlsh.stepWindow ⟨s.checksum, List.replicate 256 0⟩
   { s with a_bucket := some st.bucket, checksum := st.checksum, data_len := s.data_len + data.length }
 
+/-- `for bi in range(l): … self.tmp_code[i] += code<<(j*2)` on whatever `tmp_code` holds: the bytearray after the loop
+    and the exception that stopped it (IndexError: `tmp_code` too short, ValueError: a byte would exceed 255 — both only
+    possible after a `from_hash` of a digest of the wrong length or a second `final` without `reset`) -/
+def codeLoop (c : Tlsh.Cfg) (q1 q2 q3 : Nat) (bucket tmp : List Nat) : List Nat × Option Err :=
+  (List.range c.buckets).foldl (fun (acc : List Nat × Option Err) bi =>
+    match acc.2 with
+    | some _ => acc
+    | none =>
+      if Tlsh.quart q1 q2 q3 (bucket.getD bi 0) = 0 then acc else
+      match acc.1[bi / 4]? with
+      | none => (acc.1, some "IndexError")
+      | some x =>
+        if x + (Tlsh.quart q1 q2 q3 (bucket.getD bi 0) <<< (2 * (bi % 4))) > 255 then (acc.1, some "ValueError")
+        else (acc.1.set (bi / 4) (x + (Tlsh.quart q1 q2 q3 (bucket.getD bi 0) <<< (2 * (bi % 4)))), none)) (tmp, none)
+
 /-- the tail of `final` once the data has been absorbed: length gates, quartiles, code, header -/
 def finish (lcap : Nat → Nat) (s : State) (force : Bool) : State × Res :=
   if s.data_len < minLen ∨ (force = false ∧ s.data_len < minLenNoForce) then (s, .ok .none) else
@@ -525,17 +540,23 @@ def finish (lcap : Nat → Nat) (s : State) (force : Bool) : State × Res :=
   | none => (s, .error "TypeError:a_bucket")
   | some bucket =>
     if Tlsh.tooFew s.cfg.buckets (Tlsh.nonzero s.cfg bucket) then (s, .ok .none) else
-    if (Tlsh.quartiles s.cfg bucket).2.2 = 0 then
-      ({ s with tmp_code := List.zipWith (· + ·) s.tmp_code (Tlsh.bodyCode s.cfg (Tlsh.quartiles s.cfg bucket).1
-                              (Tlsh.quartiles s.cfg bucket).2.1 (Tlsh.quartiles s.cfg bucket).2.2 bucket),
-                Lvalue := lcap s.data_len % 256 }, .error "ZeroDivisionError")
-    else
-      ({ s with tmp_code := List.zipWith (· + ·) s.tmp_code (Tlsh.bodyCode s.cfg (Tlsh.quartiles s.cfg bucket).1
-                              (Tlsh.quartiles s.cfg bucket).2.1 (Tlsh.quartiles s.cfg bucket).2.2 bucket),
-                Lvalue := lcap s.data_len % 256,
-                q1_ratio := some ((Tlsh.quartiles s.cfg bucket).1 * 100 / (Tlsh.quartiles s.cfg bucket).2.2 % 16),
-                q2_ratio := some ((Tlsh.quartiles s.cfg bucket).2.1 * 100 / (Tlsh.quartiles s.cfg bucket).2.2 % 16),
-                lsh_code_valid := true }, .ok .obj)
+    match (codeLoop s.cfg (Tlsh.quartiles s.cfg bucket).1 (Tlsh.quartiles s.cfg bucket).2.1 (Tlsh.quartiles s.cfg bucket).2.2
+            bucket s.tmp_code).2 with
+    | some e =>
+      ({ s with tmp_code := (codeLoop s.cfg (Tlsh.quartiles s.cfg bucket).1 (Tlsh.quartiles s.cfg bucket).2.1
+                              (Tlsh.quartiles s.cfg bucket).2.2 bucket s.tmp_code).1 }, .error e)
+    | none =>
+      if (Tlsh.quartiles s.cfg bucket).2.2 = 0 then
+        ({ s with tmp_code := (codeLoop s.cfg (Tlsh.quartiles s.cfg bucket).1 (Tlsh.quartiles s.cfg bucket).2.1
+                                (Tlsh.quartiles s.cfg bucket).2.2 bucket s.tmp_code).1,
+                  Lvalue := lcap s.data_len % 256 }, .error "ZeroDivisionError")
+      else
+        ({ s with tmp_code := (codeLoop s.cfg (Tlsh.quartiles s.cfg bucket).1 (Tlsh.quartiles s.cfg bucket).2.1
+                                (Tlsh.quartiles s.cfg bucket).2.2 bucket s.tmp_code).1,
+                  Lvalue := lcap s.data_len % 256,
+                  q1_ratio := some ((Tlsh.quartiles s.cfg bucket).1 * 100 / (Tlsh.quartiles s.cfg bucket).2.2 % 16),
+                  q2_ratio := some ((Tlsh.quartiles s.cfg bucket).2.1 * 100 / (Tlsh.quartiles s.cfg bucket).2.2 % 16),
+                  lsh_code_valid := true }, .ok .obj)
 
 /-- `final(data,force)`: `.ok .none` = Python `None`, `.ok .obj` = `self` -/
 def final (lcap : Nat → Nat) (s : State) (data : List Nat) (force : Bool) : State × Res :=
